@@ -91,6 +91,8 @@ def run_property(pid, tier="quick", seed=0):
         for ob in rep["obligations"]:
             n_ob += 1
             solver_time += ob["time"]
+            if ob["time"] > 2.0:
+                print(f"  slow ({ob['time']:.1f}s, {ob['status']}, {ob['backend']}): [{rep['key']}] {ob['name'][:140]}", file=sys.stderr)
             if ob["status"] == "proved":
                 n_dis += 1
                 backends[ob["backend"]] = backends.get(ob["backend"], 0) + 1
